@@ -57,6 +57,7 @@ def groups(tier):
         for n in ns:
             out.append(('dea[limexp=%d,n=%d]' % (L, n), ('dea', L, n)))
     out.append(('dea-first-terms', ('first',)))
+    out.append(('shift-table', ('shift', tier)))
     return out
 
 
@@ -321,7 +322,56 @@ def run_first():
     return {}
 
 
+def qelg_shift(tab, n0, newelm, old_n0):
+    """reference: the table shift of QUADPACK's qelg (labels 50-80), transcribed with its 1-based indices.
+    num = number of elements before the call's adjustment, n = number kept:  after the stride-2 shift the LAST n
+    elements of the shifted table (those ending with the newest one, epstab(num)) are moved to the front."""
+    e = {i + 1: tab[i] for i in range(len(tab))}          # 1-based view
+    num, n = old_n0 + 1, n0 + 1
+    ib = 2 if (num // 2) * 2 == num else 1
+    ie = newelm + 1
+    for _ in range(ie):
+        ib2 = ib + 2
+        e[ib] = e[ib2]
+        ib = ib2
+    if num != n:
+        indx = num - n + 1
+        for i in range(1, n + 1):
+            e[i] = e[indx]
+            indx += 1
+    return [e[i + 1] for i in range(len(tab))]
+
+
+def run_shift(tier):
+    """contract of Dea._shift_table: for every table size, every element count old_n admitted by J and every n the call can
+    pass (old_n itself, the truncations n = 2i of the guards, the cap limexp-2), on a table of distinct opaque symbols
+    the result is the table produced by qelg's shift; in particular the newest entry is retained at position n"""
+    ex = mods()['ex']
+    cnt = 0
+    bad = []
+    sizes = list(range(3, 22, 2)) + ([] if tier == 'quick' else list(range(23, 62, 2)))
+    for L in sizes:
+        for old_n in range(0, L):
+            newelm = old_n // 2
+            ns = sorted({old_n} | {2 * i for i in range(newelm)} | ({L - 2} if old_n == L - 1 else set()))
+            for n in ns:
+                tab = SymArr([real('t%d' % k) for k in range(L + 5)])
+                ref = qelg_shift(list(tab), n, newelm, old_n)
+                got = ex.Dea._shift_table(tab, n, newelm, old_n)
+                cnt += 1
+                same = got is tab and all(lift(a).t.eq(lift(b).t) for a, b in zip(list(got), ref))
+                # the block the next call reads, epstab[0..n], ends with the newest entry of the shifted table
+                newest = ref[n]
+                if not same:
+                    bad.append((L, old_n, n, [str(x) for x in list(got)[:n + 1]], [str(x) for x in ref[:n + 1]]))
+    solve.fact('_shift_table==qelg-table-shift-on-opaque-tables[%d (limexp, old_n, n) combinations]' % cnt, not bad, note=str(bad[:1])[:400])
+    info = dict(shift_combinations=cnt)
+    return info
+
+
 def run_group(args):
+    if args[0] == 'shift':
+        return run_shift(args[1])
     if args[0] == 'epsalg':
         return run_epsalg(args[1])
     if args[0] == 'geo':
@@ -332,6 +382,8 @@ def run_group(args):
 
 
 def replay_case(ob):
+    if ob['name'].startswith('shift-table/'):
+        return dict(kind='C14.shift')
     import re
     nm = ob['name']
     mm = re.search(r'dea\[limexp=(\d+),n=(\d+)\]', nm)
